@@ -22,6 +22,23 @@ theorem C05.gen_capacity_arity (n : Nat) :
     (Gen.ArrayType.check n = .ok () ↔ 1 ≤ n) ∧ (Gen.UnionType.check n = .ok () ↔ 2 ≤ n) :=
   ⟨array_check_iff n, union_check_iff n⟩
 
+/-- the implicit length field of a variable-length array, `UnsignedIntegerType(2 ** ceil(log2(max(8, capacity.bit_length()))))`,
+    passes the generated width guard of `PrimitiveType` exactly when the capacity is below 2^64 - the bound of `Ty.ctorOk` -/
+theorem C05.gen_varArr_prefix (cap : Nat) :
+    Gen.PrimitiveType.check (pow2ceil8 (bitLength cap)) = .ok () ↔ cap < 2 ^ 64 := by
+  rw [primitive_check_iff]
+  constructor
+  · intro h
+    exact (C05.varArr_capacity_prefix cap).mp h.2
+  · intro h
+    have h1 := (pow2ceil8_bitLength_spec cap h).1
+    simp only [List.mem_cons, List.mem_nil_iff, or_false] at h1
+    omega
+
+example : Gen.PrimitiveType.check (pow2ceil8 (bitLength (2 ^ 64 - 1))) = .ok () ∧
+    Gen.PrimitiveType.check (pow2ceil8 (bitLength (2 ^ 64))) ≠ .ok () :=
+  ⟨(C05.gen_varArr_prefix _).mpr (by decide), fun h => absurd ((C05.gen_varArr_prefix _).mp h) (by decide)⟩
+
 /-- version 0..255 each and not 0.0; subject-IDs up to 8191, service-IDs up to 511 -/
 theorem C05.gen_version_port (major minor : Nat) (srv : Bool) (pid : Option Nat) :
     Gen.CompositeType.check_version_and_port major minor srv pid = .ok () ↔
